@@ -78,11 +78,22 @@ def parseUp (s : String) : Option Bool :=
     if f == '6' || f == 'b' then pure u else none
   | _ => none
 
-/-- `<srv>.<up>.<starttls>.<cert>.<stsMatch>.<aAD>.<tlsaAD>.<tlsa>.<reqtls>.<slow>[.<alias>]`; the `slow` field
-(latency of the TLSA answers) has no influence on the model.  Without the alias field the MX name is not a CNAME. -/
-def parseMX (s : String) : Option MX :=
+/-- `<slow>[<crash a|c|t>]`: latency of the TLSA answers (no influence on the model) and the stage at which the
+lookups of TLSA discovery for this MX CRASH (a: address lookups, c: CNAME-type query, t: TLSA lookups); result: the
+stage number of `MX.crashedAt` (0: no crash) -/
+def parseSlow (s : String) : Option Nat :=
+  match s.toList with
+  | [b] => (bit? b).map (fun _ => 0)
+  | [b, c] => do
+    let _ ← bit? b
+    if c == 'a' then pure 1 else if c == 'c' then pure 2 else if c == 't' then pure 3 else none
+  | _ => none
+
+/-- `<srv>.<up>.<starttls>.<cert>.<stsMatch>.<aAD>.<tlsaAD>.<tlsa>.<reqtls>.<slow>[.<alias>]`.  Without the alias field
+the MX name is not a CNAME.  Result: the MX (a crash of its discovery applied: `MX.crashedAt`) and whether it crashes. -/
+def parseMXc (s : String) : Option (MX × Bool) :=
   let core (srv up st ce sm aad tad tl rt slow : String) (al : Alias × Tlsa × Bool × Bool) (alKind : String) :
-      Option MX := do
+      Option (MX × Bool) := do
     let srv ← srv.toNat?
     let up ← parseUp up
     let st ← parseStartTLS st
@@ -92,9 +103,9 @@ def parseMX (s : String) : Option MX :=
     let tad ← bitS? tad
     let tlv ← parseTlsa tl
     let rt ← bitS? rt
-    let _ ← bitS? slow
+    let crash ← parseSlow slow
     if !(kindOK tl shape && kindOK alKind shape) then none else
-    pure ⟨srv, up, st, ce, sm, aad, tad, tlv, rt, al.1, al.2.1, al.2.2.1, al.2.2.2⟩
+    pure ((⟨srv, up, st, ce, sm, aad, tad, tlv, rt, al.1, al.2.1, al.2.2.1, al.2.2.2⟩ : MX).crashedAt crash, crash != 0)
   match s.splitOn "." with
   | [srv, up, st, ce, sm, aad, tad, tl, rt, slow] =>
     core srv up st ce sm aad tad tl rt slow (.none, .none, false, false) "n"
@@ -110,16 +121,49 @@ def parseDom (s : String) : Option Domain :=
     | [a, m] => do
       let ad ← bit? a
       let sts ← parseSTS m
-      let l ← (mxs.splitOn ";").mapM parseMX
-      match l with
+      let l ← (mxs.splitOn ";").mapM parseMXc
+      -- a crashing discovery is only driven for the single candidate of a domain (see the harness)
+      if l.any (·.2) && l.length != 1 then none else
+      match l.map (·.1) with
       | [] => none
       | x :: r => pure ⟨ad, sts, x, r⟩
     | _ => none
   | _ => none
 
+/-- a configuration word: `_` the directive is not written, else the bytes of the argument in hex -/
+def parseWord (s : String) : Option (Option Word) :=
+  if s == "_" then some none
+  else if s == "-" then none
+  else (unhexBytes? s).map some
+
+/-- the `local` field: `-` no local_policy block; `<t><m>` the block with the documented words of these levels;
+`<t><m>~<tls word>~<mx word>` the block with the arguments as the administrator wrote them (the two digits are then
+the levels the words DOCUMENT — ground truth of the harness's monitor; the model does not read them).
+Result: `none` ill-formed; `some none` the configuration is refused at start-up; else the policies of the block. -/
+def parseLocal (loc : String) : Option (Option (List Policy)) :=
+  if loc == "-" then some (some []) else
+  match loc.splitOn "~" with
+  | [lv] =>
+    match lv.toList with
+    | [t, m] => do
+      let t ← digit? t
+      let m ← digit? m
+      pure (some [Policy.localP t m])
+    | _ => none
+  | [lv, tw, mw] =>
+    match lv.toList with
+    | [t, m] => do
+      let _ ← digit? t
+      let _ ← digit? m
+      let tw ← parseWord tw
+      let mw ← parseWord mw
+      pure ((localInit tw mw).map (fun p => [p]))
+    | _ => none
+  | _ => none
+
 /-- `<mtasts><preload><dane><dnssec>.<local>.<override><relaxed>.<reuse>`; the list is built in the
-order of `PolicyGroup.Init`. -/
-def parseCfg (s : String) : Option Cfg :=
+order of `PolicyGroup.Init`.  `some none`: the configuration is refused at start-up. -/
+def parseCfg (s : String) : Option (Option Cfg) :=
   match s.splitOn "." with
   | [pol, loc, sw, reuse] =>
     match pol.toList, sw.toList with
@@ -131,17 +175,13 @@ def parseCfg (s : String) : Option Cfg :=
       let o ← bit? o
       let r ← bit? r
       let reuse ← reuse.toNat?
-      let lp : List Policy ←
-        if loc == "-" then pure [] else
-        match loc.toList with
-        | [t, m] => do
-          let t ← digit? t
-          let m ← digit? m
-          pure [Policy.localP t m]
-        | _ => none
-      let ps := (if a then [Policy.mtasts] else []) ++ (if b then [Policy.stsPreload] else []) ++
-        (if c then [Policy.dane] else []) ++ (if d then [Policy.dnssec] else []) ++ lp
-      pure ⟨ps, o, r, reuse⟩
+      let lp ← parseLocal loc
+      match lp with
+      | none => pure none
+      | some lp =>
+        let ps := (if a then [Policy.mtasts] else []) ++ (if b then [Policy.stsPreload] else []) ++
+          (if c then [Policy.dane] else []) ++ (if d then [Policy.dnssec] else []) ++ lp
+        pure (some ⟨ps, o, r, reuse⟩)
     | _, _ => none
   | _ => none
 
@@ -246,23 +286,55 @@ def showOutU (p : QMsg × MsgOut) : String :=
   let d := if ds.isEmpty then "-" else ",".intercalate ds
   s!"r:{rs} d:{d}"
 
+/-- second-round outputs put beside their messages: a message without recipients to retry has none -/
+def alignRetry : List (QMsg × MsgOut) → List MsgOut → List (QMsg × MsgOut × Option MsgOut)
+  | [], _ => []
+  | (m, o) :: rest, o2 =>
+    if (retryRcpts o).isEmpty then (m, o, none) :: alignRetry rest o2
+    else match o2 with
+      | x :: o2' => (m, o, some x) :: alignRetry rest o2'
+      | [] => (m, o, none) :: alignRetry rest []
+
+def showRetry (p : QMsg × MsgOut × Option MsgOut) : String :=
+  showOutU (p.1, p.2.1) ++ " >> " ++ (match p.2.2 with | some o => showOutU (p.1, o) | none => "-")
+
 def handle : List String → String
+  | ["retry", fm, cfg, d0, d1, e0, e1, msgs] =>
+    match fm.toList with
+    | [f, mode] =>
+      let front := String.singleton f
+      if (front != "q" && front != "p") || !(mode == 'r' || mode == 's' || mode == 'b') then "bad-op" else
+      match parseCfg cfg, parseDom d0, parseDom d1, parseDom e0, parseDom e1, (msgs.splitOn "/").mapM (parseVMsg front) with
+      | some none, some _, some _, some _, some _, some _ => "refused"
+      | some (some cfg), some d0, some d1, some e0, some e1, some ms =>
+        let domsA : Nat → Domain := fun i => if i == 0 then d0 else d1
+        let domsB : Nat → Domain := fun i => if i == 0 then e0 else e1
+        if mode == 'b' then
+          " | ".intercalate ((ms.zip (runFromSpool cfg domsB ms)).map (fun p => "- >> " ++ showOutU p))
+        else
+          let r := runRetry cfg domsA domsB ms
+          " | ".intercalate ((alignRetry (ms.zip r.1) r.2).map showRetry)
+      | _, _, _, _, _, _ => "bad-op"
+    | _ => "bad-op"
   | ["via", front, cfg, d0, d1, msgs] =>
     if front != "q" && front != "p" then "bad-op" else
     match parseCfg cfg, parseDom d0, parseDom d1, (msgs.splitOn "/").mapM (parseVMsg front) with
-    | some cfg, some d0, some d1, some ms =>
+    | some none, some _, some _, some _ => "refused"
+    | some (some cfg), some d0, some d1, some ms =>
       let doms : Nat → Domain := fun i => if i == 0 then d0 else d1
       " | ".intercalate ((ms.zip (runVia cfg doms ms emptyPool)).map showOutU)
     | _, _, _, _ => "bad-op"
   | ["hist", cfg, d0, d1, msgs] =>
     match parseCfg cfg, parseDom d0, parseDom d1, (msgs.splitOn "/").mapM parseMsg with
-    | some cfg, some d0, some d1, some ms =>
+    | some none, some _, some _, some _ => "refused"
+    | some (some cfg), some d0, some d1, some ms =>
       let doms : Nat → Domain := fun i => if i == 0 then d0 else d1
       " | ".intercalate ((run cfg doms ms emptyPool).map showOut)
     | _, _, _, _ => "bad-op"
   | ["conc", cfg, d0, d1, script, msgs] =>
     match parseCfg cfg, parseDom d0, parseDom d1, parseScript script, (msgs.splitOn "/").mapM parseMsg with
-    | some cfg, some d0, some d1, some (g, k, v), some ms =>
+    | some none, some _, some _, some _, some _ => "refused"
+    | some (some cfg), some d0, some d1, some (g, k, v), some ms =>
       if !concOK cfg g k v ms then "bad-op" else
       let doms : Nat → Domain := fun i => if i == 0 then d0 else d1
       let b := runConc cfg doms k v (ms.take k) 0 emptyPool
